@@ -26,16 +26,27 @@ pub fn cell(spec: &Value) -> Value {
     let opts: Vec<(String, String)> = if plain { vec![] } else { vec![("blksize".into(), blk.to_string()), ("windowsize".into(), ws.to_string())] };
     let eff_blk = if plain { 512 } else { blk };
     let mut seq = 0;
+    let _ = std::fs::write(format!("{}/x_small", srv.send_dir), b"s");
+    if cfg.single && !plain {
+        // state carried over from an earlier request: a transfer with a LARGER block size ran on this server before
+        let big = body(3000);
+        let _ = std::fs::write(format!("{}/x_prime", srv.send_dir), &big);
+        let prime = vec![("blksize".to_string(), (eff_blk.max(512) * 2).min(65464).to_string())];
+        let r = download(&srv, b"x_prime", &prime);
+        if !r.completed || r.data != big {
+            c.violations.push(Violation { property: prop.into(), clause: "e2-download-content".into(), facts: facts(&[("single", json!(cfg.single))]), what: format!("[{}] priming download with {:?} failed", cfg.brief(), prime), replay: json!({"engine": "e2_xfer", "spec": spec}), weight: 400 });
+        }
+    }
     let budget = Budget::new();
     'cell: for len in lens {
-        for mode in 0..3u8 {
+        for mode in 0..4u8 {
             if budget.over(&mut c) {
                 break 'cell;
             }
             seq += 1;
             let data = body(len);
             let mut viol: Vec<(String, String)> = vec![];
-            let desc = format!("{} len={len} blk={eff_blk} ws={} mode={}", if upload_dir { "upload" } else { "download" }, if plain { 1 } else { ws }, match (upload_dir, mode) { (_, 0) => "fault-free", (false, 1) => "duplicate ACKs", (false, _) => "stale ACK before each ACK", (true, 1) => "every DATA twice", (true, _) => "window reversed" });
+            let desc = format!("{} len={len} blk={eff_blk} ws={} mode={}", if upload_dir { "upload" } else { "download" }, if plain { 1 } else { ws }, match (upload_dir, mode) { (_, 0) => "fault-free", (_, 3) => "another client's small download in the middle", (false, 1) => "duplicate ACKs", (false, _) => "stale ACK before each ACK", (true, 1) => "every DATA twice", (true, _) => "window reversed" });
             if !upload_dir {
                 let name = format!("x_{len}");
                 let p = format!("{}/{}", srv.send_dir, name);
@@ -85,6 +96,73 @@ pub fn cell(spec: &Value) -> Value {
     }
     c.trim_violations(3);
     c.to_json()
+}
+
+/// transfers across the block-number wrap through the real Server (listener routing, both Socket impls): C15
+pub fn wrap_cell(spec: &Value) -> Value {
+    let cfg = SrvCfg::from_json(&spec["srv"]);
+    let mut c = Counters::default();
+    let srv = match if cfg.single { server_fresh(&cfg) } else { server_for(&cfg) } {
+        Ok(s) => s,
+        Err(e) => return json!({"machinery_error": format!("server start: {e}")}),
+    };
+    let upload_dir = spec["upload"].as_bool().unwrap();
+    let ws = spec["ws"].as_u64().unwrap() as usize;
+    let nblocks = spec["blocks"].as_u64().unwrap() as usize;
+    let len = nblocks * 8 + 3;
+    let data = body(len);
+    let opts: Vec<(String, String)> = vec![("blksize".into(), "8".into()), ("windowsize".into(), ws.to_string())];
+    let desc = format!("{} of {} blocks (blksize 8, windowsize {ws}) across the block-number wrap", if upload_dir { "upload" } else { "download" }, nblocks + 1);
+    let mut viol: Vec<(String, String)> = vec![];
+    if upload_dir {
+        let name = format!("wrap_{}", std::process::id());
+        let r = upload(&srv, name.as_bytes(), &opts, &data);
+        let p = format!("{}/{}", srv.recv_dir, name);
+        let stored = std::fs::read(&p).ok();
+        let _ = std::fs::remove_file(&p);
+        c.transitions += r.acks.len() as u64;
+        if !r.completed || stored.as_deref() != Some(&data[..]) {
+            viol.push(("e2-wrap-upload".into(), format!("{desc}: completed={} error={:?} stored {:?} of {} bytes; {:?}", r.completed, r.error, stored.map(|s| s.len()), len, &r.anomalies[..r.anomalies.len().min(3)])));
+        }
+    } else {
+        let p = format!("{}/wrap_src_{}", srv.send_dir, nblocks);
+        if std::fs::metadata(&p).map(|m| m.len() as usize != len).unwrap_or(true) {
+            std::fs::write(&p, &data).unwrap();
+        }
+        let r = download(&srv, format!("wrap_src_{nblocks}").as_bytes(), &opts);
+        c.transitions += r.block_lens.len() as u64;
+        if !r.completed || r.data != data {
+            viol.push(("e2-wrap-download".into(), format!("{desc}: completed={} error={:?} received {} of {} bytes; {:?}", r.completed, r.error, r.data.len(), len, &r.anomalies[..r.anomalies.len().min(3)])));
+        }
+    }
+    c.executions = 1;
+    c.states = 1;
+    c.nontrivial = 1;
+    c.trace_hashes.insert(fnv64(desc.as_bytes()) ^ cfg.single as u64);
+    c.samples.push(json!({"srv": cfg.brief(), "real_server": desc}));
+    for (clause, what) in viol {
+        c.violations.push(Violation { property: "C15".into(), clause, facts: facts(&[("single", json!(cfg.single))]), what: format!("[{}] {}", cfg.brief(), what), replay: json!({"engine": "e2_wrap", "spec": spec}), weight: 900 });
+    }
+    if !quiesce() {
+        c.machinery_errors.push("server not quiescent after a wrap transfer".into());
+    }
+    c.to_json()
+}
+
+pub fn wrap_cells(thorough: bool) -> Vec<Value> {
+    let mut v = vec![];
+    for single in [false, true] {
+        let mut s = SrvCfg::basic();
+        s.single = single;
+        s.overwrite = true;
+        for upload in [false, true] {
+            let wss: Vec<usize> = if thorough { vec![1, 3, 32] } else { vec![32] };
+            for ws in wss {
+                v.push(json!({"srv": s.to_json(), "upload": upload, "ws": ws, "blocks": 65540}));
+            }
+        }
+    }
+    v
 }
 
 pub fn cells(upload: bool, thorough: bool) -> Vec<Value> {
